@@ -22,11 +22,11 @@ import (
 type C19 struct{}
 
 var c19Cmds = []string{"canary-pause", "canary-unpause", "canary-validate", "canary-fail", "pause-rolling-update", "unpause-rolling-update", "freeze-rollout", "unfreeze-rollout"}
-var c19States = []string{"no-canary", "canary-running", "auto-paused", "auto-paused-by-restarts", "user-paused", "failed", "mid-rolling-update", "canary-before-first-pod", "user-paused-before-first-pod"}
+var c19States = []string{"no-canary", "canary-running", "canary-on-a-formerly-active-replicaset", "auto-paused", "auto-paused-by-restarts", "user-paused", "failed", "mid-rolling-update", "canary-before-first-pod", "user-paused-before-first-pod"}
 
 func (e *C19) Name() string { return "sim.c19" }
 func (e *C19) Rule() string {
-	return "reachable states {no canary, canary running, auto-paused by a start error that went away, auto-paused by restart counts that stay, user-paused, failed, mid rolling update, canary before its first pod} x every sequence of 1-3 of the 8 commands (584 per state; all in thorough, seeded sample in quick) x {no edit, template edit before the reconciles}; each command runs through its real body with an injected client; whole-store diff before/after each command; then cooperative rounds and the state/promotion/rollback expectations; non-trivial = distinct (state, sequence, edit) tuples in which at least one command acted"
+	return "reachable states {no canary, canary running, canary on a replica set that has been active before (template reverted during the rolling update), auto-paused by a start error that went away, auto-paused by restart counts that stay, user-paused, failed, mid rolling update, canary before its first pod} x every sequence of 1-3 of the 8 commands (584 per state; all in thorough, seeded sample in quick) x {no edit, template edit before the reconciles}; each command runs through its real body with an injected client; whole-store diff before/after each command; then cooperative rounds and the state/promotion/rollback expectations; non-trivial = distinct (state, sequence, edit) tuples in which at least one command acted"
 }
 
 func c19Seqs() [][]int {
@@ -173,6 +173,35 @@ func (e *C19) prepare(w *World, state string) bool {
 	case "canary-running":
 		w.SetTemplate(c19NS, c19Name, kit.Tpl("B"))
 		if !canaryUp(6) {
+			return false
+		}
+	case "canary-on-a-formerly-active-replicaset":
+		// B goes through a canary and is validated; while its rolling update is under way (the replica set of A still
+		// owns pods) the user reverts to A: the replica set that has been active before is now the canary
+		w.SetTemplate(c19NS, c19Name, kit.Tpl("B"))
+		if !canaryUp(6) {
+			return false
+		}
+		if err := w.Kubectl("canary-validate", c19NS, c19Name); err != nil {
+			return false
+		}
+		w.Round(2 * time.Second)
+		e := kit.GetEDS(w.S, c19NS, c19Name)
+		var rsA *v1.ExtendedDaemonSetReplicaSet
+		for _, rs := range kit.RSs(w.S) {
+			if rs.Namespace == c19NS && kit.MarkerOfTemplate(&rs.Spec.Template) == "A" {
+				rsA = rs
+			}
+		}
+		if e == nil || rsA == nil || e.Status.ActiveReplicaSet == rsA.Name || e.Status.Canary != nil {
+			return false
+		}
+		w.SetTemplate(c19NS, c19Name, kit.Tpl("A"))
+		if !canaryUp(4) {
+			return false
+		}
+		e = kit.GetEDS(w.S, c19NS, c19Name)
+		if e.Status.Canary == nil || e.Status.Canary.ReplicaSet != rsA.Name {
 			return false
 		}
 	case "canary-before-first-pod":
